@@ -6,11 +6,19 @@ a. every escape spelling a grammar accepts is handled by StringLiteralParser::pa
 b. alias expansion cannot recurse unboundedly: the recursive fold is reached only after the `already expanding`
    test returned false, and push/pop of the expansion stack are paired on every path
 c. inventory of panic-capable sites in the parser modules (informational)
+d. dispatch exhaustiveness against the grammar: every `match pair.as_rule()` in the parsers whose fallback arm panics
+   handles every rule the .pest grammar can put at that position (first child / any child of the parent rule, Pratt
+   primaries = children of `expression` not registered as operators, Pratt operators = those registered with
+   Op::prefix/postfix/infix); helper dispatchers called with the matched pair handle every rule of the calling arm
+e. fixed-arity destructuring: `let [a, b, ..] = pair.into_inner().collect_array().unwrap()` inside the arm for rule X
+   requires that X has exactly that many children in every derivation of the grammar
 """
 import os
+import re
 
-from jjv.lib import bool_edges, name_matches, show, strip, term_calls, term_fields
+from jjv.lib import bool_edges, name_matches, norm, show, strip, term_calls, term_fields
 from rules.escapes_common import GRAMMARS, grammar_escapes, parser_map, pest_rules
+from rules.pest_grammar import Grammar
 
 
 def run(ctx):
@@ -44,6 +52,8 @@ def run(ctx):
                "the grammar accepts \\x without exactly two hex digits: from_str_radix(..).expect() can panic")
     rule_b(ctx)
     rule_c(ctx)
+    rule_d(ctx)
+    rule_e(ctx)
 
 
 def rule_b(ctx):
@@ -112,3 +122,251 @@ def rule_c(ctx):
                    "coalesce(res,decl) LIKE 'core::panicking::%') GROUP BY 1", (m + "%", "<" + m + "%"))
         inv[m] = {r["n"]: r["c"] for r in rows}
     ctx.info["panic_capable_sites_inventory"] = inv
+
+
+# panicking dispatch site -> (grammar, parent rule, which children reach it); confirmed by reading the parsers
+DISPATCH = {
+    "jj_lib::revset_parser::parse_primary_node": ("revset", "primary", "first"),
+    "<jj_lib::revset_parser::RevsetAliasParser as jj_lib::dsl_util::AliasDeclarationParser>::parse_declaration":
+        ("revset", "alias_declaration", "first"),
+    "<jj_lib::revset_parser::RevsetAliasParser as jj_lib::dsl_util::AliasDeclarationParser>::parse_declaration::{closure#0}":
+        ("revset", "formal_parameters", "any"),
+    "jj_lib::revset_parser::parse_as_string_literal": ("revset", "symbol_name", "first"),
+    "jj_lib::fileset_parser::parse_primary_node": ("fileset", "primary", "first"),
+    "jj_lib::fileset_parser::parse_program_or_bare_string": ("fileset", "program_or_bare_string", "first"),
+    "<jj_lib::fileset_parser::FilesetAliasParser as jj_lib::dsl_util::AliasDeclarationParser>::parse_declaration":
+        ("fileset", "alias_declaration", "first"),
+    "<jj_lib::fileset_parser::FilesetAliasParser as jj_lib::dsl_util::AliasDeclarationParser>::parse_declaration::{closure#0}":
+        ("fileset", "formal_parameters", "any"),
+    "jj_cli::template_parser::parse_term_node": ("template", "primary", "first"),
+    "jj_cli::template_parser::parse_template_node::{closure#0}": ("template", "template", "any"),
+    "<jj_cli::template_parser::TemplateAliasParser as jj_lib::dsl_util::AliasDeclarationParser>::parse_declaration":
+        ("template", "alias_declaration", "first"),
+}
+PRATT_FNS = {"revset": "jj_lib::revset_parser::parse_expression_node", "fileset": "jj_lib::fileset_parser::parse_expression_node",
+             "template": "jj_cli::template_parser::parse_expression_node"}
+PRATT_PARENT = "expression"
+NESTED = ("jj_lib::revset_parser::parse_as_string_literal", "jj_lib::fileset_parser::parse_as_string_literal",
+          "jj_cli::template_parser::parse_string_literal")
+
+
+def rule_switch_sites(F, b):
+    """[(bb, handled variant names, fallback panics?, {variant: edge node})] for switches on a pest Rule discriminant"""
+    out = []
+    for bb, t in b.switches():
+        ds = b.discr_source(bb)
+        if not ds or not ds[1] or not ds[1].endswith("_parser::Rule"):
+            continue
+        handled = {ds[2].get(int(v)) for v, _ in t["vals"]}
+        edges = {ds[2].get(int(v)): b.edge_node(bb, int(v)) for v, _ in t["vals"]}
+        e = b.edge_node(bb, "else")
+        pan = False
+        if e is not None:
+            reach = b.reachable_from([e], avoid=list(edges.values()))
+            rets = [x for x in reach if x < b.n and b.blocks[x]["t"]["k"] == "return"]
+            pcs = [x for x in reach if x < b.n and b.blocks[x]["t"]["k"] == "call" and
+                   "panic" in (b.blocks[x]["t"]["f"].get("r") or b.blocks[x]["t"]["f"].get("d") or "")]
+            pan = not rets and bool(pcs)
+        out.append((bb, handled, pan, edges))
+    return out
+
+
+def rule_d(ctx):
+    F = ctx.F
+    G = {g: Grammar(os.path.join(ctx.repo, rel)) for g, rel in GRAMMARS.items()}
+    n_sites = 0
+
+    def judge(key, g, where_txt, expected, handled, panics):
+        nonlocal n_sites
+        n_sites += 1
+        if not panics:
+            ctx.ob("C36.d/dispatch-covers-grammar", key, True, "fallback arm does not panic")
+            return
+        missing = sorted(expected - handled)
+        ctx.ob("C36.d/dispatch-covers-grammar", key, not missing,
+               f"handles all {len(expected)} rules {g}.pest can produce {where_txt}" if not missing else
+               f"{g}.pest can produce {missing} {where_txt}, but the match on pair.as_rule() falls through to panic!() for "
+               f"{'it' if len(missing) == 1 else 'them'}: reachable from user input")
+
+    # 1. tabled first/any sites
+    for fid, (g, parent, mode) in DISPATCH.items():
+        b = F.body(fid)
+        if not ctx.anchor("C36.d", f"dispatch function {fid}", [b] if b is not None else [], 1):
+            continue
+        ctx.fn_seen(fid)
+        if parent not in G[g].ast:
+            ctx.ob("C36.d/dispatch-covers-grammar", fid, False, f"grammar rule {parent} no longer exists in {g}.pest")
+            continue
+        expected = (G[g].first(parent) if mode == "first" else G[g].children(parent)) - {"EOI"}
+        sites = rule_switch_sites(F, b)
+        if not ctx.anchor("C36.d", f"{fid}: match on Rule", sites, 1):
+            continue
+        # the dispatching switch is the one with the largest overlap with the expected set
+        bb, handled, pan, _ = max(sites, key=lambda s_: len(s_[1] & expected))
+        judge(fid, g, f"as {'the first child' if mode == 'first' else 'a child'} of `{parent}`", expected, handled, pan)
+    # 2. Pratt parsers
+    for g, fid in PRATT_FNS.items():
+        b = F.body(fid)
+        if not ctx.anchor("C36.d", f"Pratt driver {fid}", [b] if b is not None else [], 1):
+            continue
+        ctx.fn_seen(fid)
+        sl = F.slicer(b.id)
+        reg = {"prefix": set(), "postfix": set(), "infix": set()}
+        init = [f for f in F.find_fns("re:^" + re.escape(fid) + r"::PRATT::\{closure#0\}$")]
+        for f in init:
+            ib = F.body(f)
+            isl = F.slicer(f)
+            for c in ib.calls:
+                m = re.search(r"pratt_parser::Op::<R>::(prefix|postfix|infix)$", c.res or c.decl or "")
+                if m and not c.cleanup:
+                    t = strip(isl.call_arg(c, 0))
+                    txt = show(t)
+                    mm = re.search(r"Rule::(\w+)", txt)
+                    if mm:
+                        reg[m.group(1)].add(mm.group(1))
+        if not ctx.anchor("C36.d", f"{g}: operators registered with the Pratt parser", set().union(*reg.values()), 1):
+            continue
+        kids = G[g].children(PRATT_PARENT)
+        allreg = set().union(*reg.values())
+        closures = {}
+        fnhandlers = {}
+        for c in b.calls:
+            m = re.search(r"::map_(primary|prefix|postfix|infix)$", c.res or c.decl or "")
+            if m and not c.cleanup:
+                t = strip(sl.call_arg(c, 1))
+                if isinstance(t, tuple) and t[0] == "call" and str(t[1]).startswith("closure:"):
+                    closures[m.group(1)] = t[1][8:]
+                elif isinstance(t, tuple) and t[0] == "fnconst":
+                    fnhandlers[m.group(1)] = t[1]
+        ctx.anchor("C36.d", f"{g}: Pratt map_* handlers", list(closures) + list(fnhandlers), 3)
+        for kind, cid in sorted(closures.items()):
+            cb = F.body(cid)
+            if cb is None:
+                continue
+            ctx.fn_seen(cid)
+            expected = (kids - allreg) if kind == "primary" else (reg[kind] & kids)
+            sites = rule_switch_sites(F, cb)
+            if not sites:
+                # no dispatch (e.g. a single primary kind handled unconditionally)
+                if kind == "primary" or not expected:
+                    continue
+                ctx.ob("C36.d/dispatch-covers-grammar", cid, False, f"map_{kind} closure has no match on the operator rule")
+                continue
+            bb, handled, pan, _ = max(sites, key=lambda s_: len(s_[1] & expected))
+            judge(cid, g, f"as a {kind} {'expression' if kind == 'primary' else 'operator'} inside `{PRATT_PARENT}`",
+                  expected, handled, pan)
+        for kind, hid in sorted(fnhandlers.items()):
+            # a plain function installed as handler: it sees every rule of that kind
+            hb = F.body(hid)
+            expected = (kids - allreg) if kind == "primary" else (reg[kind] & kids)
+            direct = []
+            if hb is not None:
+                hsl = F.slicer(hid)
+                for bb2, hs, pan2, _ in rule_switch_sites(F, hb):
+                    sw = strip(hsl.place(hb.discr_source(bb2)[0], at=bb2))
+                    for x in term_calls(sw):
+                        if name_matches(x[1], "re:Pair::<.*>::as_rule$") and strip(x[2][0])[0] == "param":
+                            direct.append((hs, pan2))
+            if direct:
+                judge(hid, g, f"as a {kind} inside `{PRATT_PARENT}`", expected, direct[0][0], direct[0][1])
+            else:
+                n_sites += 1
+                ctx.ob("C36.d/dispatch-covers-grammar", f"{hid}|map_{kind}", len(expected) <= 1,
+                       f"single {kind} kind {sorted(expected)} handled uniformly" if len(expected) <= 1 else
+                       f"{g}.pest can produce {sorted(expected)} as {kind} expressions inside `{PRATT_PARENT}`, but the handler "
+                       f"{hid.split('::')[-1]} treats every one as the same rule (its unwrap()/assert on the node shape fails)")
+        # every operator-like child must be either registered or a handled primary: covered by the primary check above;
+        # a registered operator of a kind without closure would make pest panic
+        for kind in ("prefix", "postfix", "infix"):
+            if reg[kind] & kids and kind not in closures:
+                ctx.ob("C36.d/dispatch-covers-grammar", f"{fid}|map_{kind}", False,
+                       f"{sorted(reg[kind] & kids)} are registered as {kind} operators but no map_{kind} handler is installed")
+    # 3. helper dispatchers called with the matched pair from an arm of another dispatch
+    for fid in NESTED:
+        cb = F.body(fid)
+        if not ctx.anchor("C36.d", f"helper dispatcher {fid}", [cb] if cb is not None else [], 1):
+            continue
+        ctx.fn_seen(fid)
+        sites = rule_switch_sites(F, cb)
+        if not sites:
+            continue
+        _, handled, pan, _ = sites[0]
+        g = "revset" if "revset" in fid else ("fileset" if "fileset" in fid else "template")
+        expected = set()
+        ncalls = 0
+        for c in F.all_calls_to(fid):
+            if c.cleanup:
+                continue
+            b = c.body
+            for bb, hs, _, edges in rule_switch_sites(F, b):
+                arms = {v for v, e in edges.items() if e is not None and c.bb in b.reachable_from([e], avoid=[x for x in edges.values() if x != e])}
+                # only arms that reach the call exclusively through their own edge and pass the matched pair itself
+                if not arms or len(arms) == len(edges):
+                    continue
+                csl = F.slicer(b.id)
+                ds = b.discr_source(bb)
+                arg = repr(norm(csl.call_arg(c, 0)))
+                # the switched value is as_rule(&pair): the helper must be given that same pair
+                sw = strip(csl.place(ds[0], at=bb))
+                pair_terms = set()
+                for x in term_calls(sw):
+                    if name_matches(x[1], "re:Pair::<.*>::as_rule$"):
+                        pair_terms.add(repr(norm(x[2][0])))
+                if arg in pair_terms:
+                    expected |= arms
+                    ncalls += 1
+        if expected:
+            judge(fid, g, "in the arms of the dispatches that hand the matched pair to this helper", expected, handled, pan)
+    ctx.anchor("C36.d", "dispatch sites checked against the grammar", n_sites, 24)
+
+
+def rule_e(ctx):
+    F = ctx.F
+    G = {g: Grammar(os.path.join(ctx.repo, rel)) for g, rel in GRAMMARS.items()}
+    n = 0
+    skipped = []
+    for c in F.all_calls_to("itertools::Itertools::collect_array"):
+        b = c.body
+        g = "revset" if "revset_parser" in b.id else "fileset" if "fileset_parser" in b.id else \
+            "template" if "template_parser" in b.id else None
+        if g is None or c.cleanup:
+            continue
+        sl = F.slicer(b.id)
+        # N from the const generic argument of collect_array::<N>
+        gen = b.blocks[c.bb]["t"]["f"].get("g") or ""
+        m = re.search(r",\s*(\d+)_usize\]", gen)
+        if not m:
+            skipped.append(f"{b.id}@bb{c.bb}: arity not found in {gen!r}")
+            continue
+        N = int(m.group(1))
+        src = strip(sl.call_arg(c, 0))
+        inner = [x for x in term_calls(src) if name_matches(x[1], "re:Pair::<.*>::into_inner$")]
+        if not inner:
+            skipped.append(f"{b.id}@bb{c.bb}: not collecting into_inner()")
+            continue
+        pair = repr(norm(inner[0][2][0]))
+        rules_here = set()
+        for bb, hs, _, edges in rule_switch_sites(F, b):
+            sw = strip(sl.place(b.discr_source(bb)[0], at=bb))
+            same = any(name_matches(x[1], "re:Pair::<.*>::as_rule$") and repr(norm(x[2][0])) == pair for x in term_calls(sw))
+            if not same:
+                continue
+            arms = {v for v, e in edges.items() if e is not None and
+                    c.bb in b.reachable_from([e], avoid=[x for x in edges.values() if x != e])}
+            if arms and len(arms) < len(edges):
+                rules_here |= arms
+        if not rules_here:
+            skipped.append(f"{b.id}@bb{c.bb}: rule of the destructured pair not determined by an enclosing match")
+            continue
+        ctx.fn_seen(b.id)
+        for r in sorted(rules_here):
+            cnt = G[g].child_count(r) if r in G[g].ast else None
+            n += 1
+            ok = cnt is not None and cnt == (N, N)
+            ctx.ob("C36.e/fixed-arity-destructuring", f"{b.id}|{r}|{N}", ok,
+                   f"`{r}` always has {N} children" if ok else
+                   f"{g}.pest gives `{r}` between {cnt[0] if cnt else '?'} and "
+                   f"{'unbounded' if cnt and cnt[1] >= Grammar.INF else (cnt[1] if cnt else '?')} children, but the parser "
+                   f"destructures exactly {N} with collect_array().unwrap(): panics on the other shapes", where=c.where())
+    ctx.info["collect_array_sites_not_decided"] = skipped
+    ctx.anchor("C36.e", "collect_array destructurings tied to a grammar rule", n, 10)
